@@ -1242,7 +1242,10 @@ class ApertureStats:
         """
         areas = np.array([np.sum(weight.filled(0.0))
                           for weight in self._weight_cutout])
-        areas[self._all_masked] = np.nan
+        # all pixels masked in the ``sum_method`` cutout (which can
+        # have unmasked pixels when the "center" cutout has none)
+        all_masked = np.array([np.all(mask) for mask in self._mask_cutout])
+        areas[all_masked] = np.nan
         return areas << (u.pix**2)
 
     @lazyproperty
